@@ -58,9 +58,9 @@ void mx_build_queue(MX *m, AWT *stop) { gh_bq_calls++; gh_bq_stop = stop; gh_bq_
   m->_queue = gh_bq_nodes; }
 #endif
 #define UNLOCK_CONTRACT(this_) \
-__CPROVER_requires(M_PRE(this_) && gh_mx_tok == MX_ME && gh_my_node == 0 && gh_node_own == OWN_NONE) \
+__CPROVER_requires(M_PRE(this_) && gh_mx_tok == MX_ME && gh_my_node == 0 && gh_node_own == OWN_NONE && gh_mx_this == this_) \
 __CPROVER_requires(gh_bq_nodes != 0 && gh_qhead == (void *)this_->_queue && gh_qnext == (void *)(this_->_queue != 0 ? this_->_queue->_next : gh_bq_nodes->_next)) \
-__CPROVER_assigns(*gh_M_cell, __CPROVER_object_whole(this_), PROTM_GHOSTS, gh_bq_calls, gh_bq_stop, gh_bq_cell, gh_fn_calls, gh_fn_arg, gh_bq_nodes->_next, gh_fn_next_at_call) \
+__CPROVER_assigns(*gh_M_cell, __CPROVER_object_whole(this_), PROTM_GHOSTS, gh_bq_calls, gh_bq_stop, gh_bq_cell, gh_fn_calls, gh_fn_arg, gh_bq_nodes->_next, gh_fn_next_at_call, gh_q_at_call) \
 __CPROVER_assigns(this_->_queue != 0: this_->_queue->_next) \
 __CPROVER_ensures(cv_exc_pending == 0 && gh_mx_tok != MX_ME)                                /* afterwards this thread no longer owns it */ \
 __CPROVER_ensures((gh_released == 1) != (gh_fn_calls == 1))                                 /* exactly one of: freed / handed over */ \
@@ -71,17 +71,18 @@ __CPROVER_ensures((gh_fn_calls == 1 && gh_qhead != 0) ==> (gh_fn_arg == gh_qhead
 __CPROVER_ensures((gh_fn_calls == 1 && gh_qhead == 0) ==> (gh_bq_calls == 1 && gh_bq_stop == gh_DOORMAN && gh_fn_arg == (void *)gh_bq_nodes))  /* queue was empty: rebuilt from the pending requests */ \
 __CPROVER_ensures(gh_fn_calls == 1 ==> (void *)this_->_queue == gh_qnext)                 /* the granted request leaves the queue: the rest keeps its order */ \
 __CPROVER_ensures(gh_fn_calls == 1 ==> gh_fn_next_at_call == 0)                             /* the granted request is unlinked before it is resumed */ \
+__CPROVER_ensures(gh_fn_calls == 1 ==> gh_q_at_call == gh_qnext)                            /* ... and the private queue is ALREADY advanced at the hand-over: afterwards it belongs to the new owner */ \
 __CPROVER_ensures(gh_released == 1 ==> (void *)this_->_queue == 0)                          /* frame: freeing leaves the (empty) private queue empty - needed to compose (history lemma, h_lemma.c) */ \
 __CPROVER_ensures(gh_bq_calls == 1 ==> (gh_bq_cell != 0 && gh_bq_cell != gh_DOORMAN))       /* the queue is rebuilt only after the release attempt failed: a request IS pending at the detach, so the rebuilt queue is non-empty (no hand-over to nobody) */ \
 __CPROVER_ensures(gh_allocs == __CPROVER_old(gh_allocs))
-void *gh_qhead; void *gh_qnext; void *gh_fn_next_at_call;
+void *gh_qhead; void *gh_qnext; void *gh_fn_next_at_call; void *gh_q_at_call; MX *gh_mx_this;
 #endif
 #ifdef CV_HAS_mx_unlock_rel
-void mx_unlock_rel_fn(LAMREL *fn, AWT *awt) { gh_fn_calls++; gh_fn_arg = awt; gh_fn_next_at_call = awt->_next; __CPROVER_assert(gh_mx_tok == MX_ME, "ownership handed over by a thread that does not own the mutex"); gh_mx_tok = MX_HANDED; }
+void mx_unlock_rel_fn(LAMREL *fn, AWT *awt) { gh_fn_calls++; gh_fn_arg = awt; gh_fn_next_at_call = awt->_next; gh_q_at_call = (void *)gh_mx_this->_queue; __CPROVER_assert(gh_mx_tok == MX_ME, "ownership handed over by a thread that does not own the mutex"); gh_mx_tok = MX_HANDED; }
 void mx_unlock_rel(MX *this_, LAMREL *fn) UNLOCK_CONTRACT(this_);
 #endif
 #ifdef CV_HAS_mx_unlock_del
-void mx_unlock_del_fn(LAMDEL *fn, AWT *awt) { gh_fn_calls++; gh_fn_arg = awt; gh_fn_next_at_call = awt->_next; __CPROVER_assert(gh_mx_tok == MX_ME, "ownership handed over by a thread that does not own the mutex"); gh_mx_tok = MX_HANDED; }
+void mx_unlock_del_fn(LAMDEL *fn, AWT *awt) { gh_fn_calls++; gh_fn_arg = awt; gh_fn_next_at_call = awt->_next; gh_q_at_call = (void *)gh_mx_this->_queue; __CPROVER_assert(gh_mx_tok == MX_ME, "ownership handed over by a thread that does not own the mutex"); gh_mx_tok = MX_HANDED; }
 void mx_unlock_del(MX *this_, LAMDEL *fn) UNLOCK_CONTRACT(this_);
 #endif
 
@@ -121,10 +122,15 @@ __CPROVER_ensures(__CPROVER_old(OWN_PTR(this_)) == 0 ==> gh_ul_calls == 0)
 #ifdef CV_HAS_mx_try_lock
 int gh_rdy_calls; cv_i1 gh_rdy_result;
 cv_i1 mx_ready_stub(MX *m) { gh_rdy_calls++; return gh_rdy_result; }
+int gh_tl_unlock_calls;
+#ifdef CV_HAS_tl_unlock_del_stub
+void tl_unlock_del_stub(MX *m, void *fn) { gh_tl_unlock_calls++; }
+#endif
 void mx_try_lock(OWNT *ret, MX *this_)
-__CPROVER_requires(cv_exc_pending == 0 && gh_rdy_calls == 0 && gh_rdy_result <= 1 && __CPROVER_is_fresh(ret, sizeof(*ret)))
-__CPROVER_assigns(__CPROVER_object_whole(ret), gh_rdy_calls)
+__CPROVER_requires(cv_exc_pending == 0 && gh_rdy_calls == 0 && gh_tl_unlock_calls == 0 && gh_rdy_result <= 1 && __CPROVER_is_fresh(ret, sizeof(*ret)))
+__CPROVER_assigns(__CPROVER_object_whole(ret), gh_rdy_calls, gh_tl_unlock_calls)
 __CPROVER_ensures(cv_exc_pending == 0 && gh_rdy_calls == 1)
+__CPROVER_ensures(gh_tl_unlock_calls == 0)                                   /* try_lock never releases anything - in particular not a mutex somebody else owns when it fails */
 __CPROVER_ensures(OWN_PTR(ret) == (gh_rdy_result ? this_ : (MX *)0))
 __CPROVER_ensures(gh_allocs == __CPROVER_old(gh_allocs))
 ;
